@@ -39,6 +39,7 @@ def rule_check_writes_nothing(ctx):
                  "control-dependent on !cpd.do_check, directly or through a latch flag set only under it; main rejects --check "
                  "together with every output-selecting argument")
     f = db.fn("do_source_file", file=UNC)
+    r.names(f, "pfout", "filename_in", "filename_out", "filename_tmp", "need_backup", "did_open")
     latches = _latches(f, ("did_open", "need_backup"))
     events = [n for n in f.all_nodes() if is_write_open(f, n) or (n["k"] == "call" and (n.get("c") in FILE_MUTATORS or n.get("c") in
               ("backup_copy_file", "backup_create_md5_file", "make_folders")))]
@@ -277,6 +278,7 @@ def rule_if_changed_early(ctx):
     r = ctx.rule("if-changed-early", "under --if-changed the formatter runs with a null FILE*, and when the buffer equals the input "
                  "do_source_file returns before any file-creating event")
     f = db.fn("do_source_file", file=UNC)
+    r.names(f, "pfout", "filename_in", "filename_out", "filename_tmp", "need_backup", "did_open")
     ufs = db.calls_in(f, "uncrustify_file")
     first = [n for n in ufs if ("cpd.if_changed", True) in _conds(f, n)]
     r.check(len(first) == 1 and expr_str(f, first[0]["a"][1]) == "nullptr" and expr_str(f, first[0]["a"][5]) == "true", "do_source_file/if-changed-formats-to-memory",
